@@ -132,15 +132,23 @@ def corruption(rep, n, k):
             kinds['accepted'] += 1
             # accepted: the tree must account for every token: re-rendering it gives the same token stream
             try:
-                again = layout._TOK.findall(unparse(_as_generated(abs_module(tree))))
+                again = _chars(unparse(_as_generated(abs_module(tree))))
             except Exception as e:
                 continue
-            ctoks = layout._TOK.findall(text)
-            if collections.Counter(_norm(again)) != collections.Counter(_norm(ctoks)):
+            ctoks = _chars(text)
+            if collections.Counter(again) != collections.Counter(ctoks):
                 rep.violation('corrupt:token-lost:%s' % kind, 'corrupted input (%s) is accepted but tokens are not accounted for: %r vs %r'
-                              % (kind, _short_diff(_norm(ctoks), _norm(again))[0], _short_diff(_norm(ctoks), _norm(again))[1]),
+                              % (kind, ''.join(_short_diff(ctoks, again)[0]), ''.join(_short_diff(ctoks, again)[1])),
                               dict(kind='corruption', input=text, corruption=kind))
     rep.bounded['corruption_outcomes'] = dict(kinds)
+
+
+def _chars(text):
+    """non-blank characters with the spellings the tree does not keep normalised away (enum class/struct, std::pair)"""
+    import re
+    t = re.sub(r'\benum\s+(class|struct)\b', 'enum', text)
+    t = re.sub(r'\bstd\s*::\s*pair\b', 'pair', t)
+    return [c for c in t if not c.isspace()]
 
 
 def _norm(toks):
